@@ -171,17 +171,27 @@ func SeqPart(rep *rt.Report, tier rt.Tier) *seq.Stats {
 			return true
 		},
 		Run: func(h []uint8) seq.Outcome {
-			w := NewWorld()
-			for i, x := range h {
-				if f := w.Apply(evs[x]); f != "" {
-					_ = i
+			// each history twice: the buffer is read only at the end / after every event (a reader polls it)
+			for _, readAlways := range []bool{false, true} {
+				w := NewWorld()
+				for i, x := range h {
+					if f := w.Apply(evs[x]); f != "" {
+						return classify(h, evs, f)
+					}
+					if readAlways && i < len(h)-1 {
+						if f := w.Check(); f != "" {
+							return classify(h, evs, fmt.Sprintf("GetLogs had been called after every event; after event %d (%v): %s", i+1, evs[x], f))
+						}
+					}
+				}
+				if f := w.Check(); f != "" {
+					if readAlways {
+						f = "GetLogs had been called after every event: " + f
+					}
 					return classify(h, evs, f)
 				}
 			}
-			if f := w.Check(); f != "" {
-				return classify(h, evs, f)
-			}
-			return seq.Outcome{Key: w.key()}
+			return seq.Outcome{Key: ""} // no private-state dump: the history itself is the state
 		},
 	}
 	st := seq.Explore(cfg)
